@@ -1041,6 +1041,25 @@ class Machine:
                 r = simp(z3.Extract(w - 1, 0, bv(a, 64)) | z3.Extract(w - 1, 0, bv(b, 64)))
             self.flags = ('result', r, w)      # ZF = (k1 | k2) == 0; the carry flag (all ones) is not modelled
             return None
+        if op in ('VPTEST', 'PTEST'):
+            # ZF = ((a AND b) == 0) over the whole register; the carry flag (ANDN) is not modelled
+            cls = A[0][0] if A[0][0] in 'XYZ' else A[1][0]
+            n = self.vwidth(cls)
+            x, y = self.vsrc(A[0], n, pc), self.vsrc(A[1], n, pc)
+            ands = [self.l_and(x[i], y[i]) for i in range(n)]
+            if all(isinstance(t, int) for t in ands):
+                r = 0
+                for t in ands:
+                    r |= t
+            elif TAINT[0]:
+                r = SEC(32)
+            else:
+                r = bv(ands[0], 32)
+                for t in ands[1:]:
+                    r = r | bv(t, 32)
+                r = simp(r)
+            self.flags = ('result', r, 32)
+            return None
         if op in ('VPTESTMQ', 'VPTESTMD', 'VPTESTNMQ', 'VPTESTNMD'):
             cls = A[0][0] if A[0][0] in 'XYZ' else A[1][0]
             n = self.vwidth(cls)
